@@ -36,7 +36,29 @@ def conc_world_2classes(ctx):
     return w
 
 
-def conc_family(name, mk_reqs, world=None, max_preemptions=None):
+def conc_world_2traits(ctx):
+    """conc_world plus a second custom trait with a higher identifier"""
+    w = conc_world(ctx)
+    w.trait('CUSTOM_T2')
+    return w
+
+
+def schedule_sig(reqs, trace):
+    """fingerprint of an interleaving: who ran, in order, with the number of
+    consecutive scheduling points each was given (put_traitsx3,delete_traitx2,
+    put_traitsx1 = put_traits was paused at the start of its third
+    transaction while delete_trait ran to completion)"""
+    runs = []
+    for k in trace:
+        if runs and runs[-1][0] == k:
+            runs[-1][1] += 1
+        else:
+            runs.append([k, 1])
+    return ','.join('%s%dx%d' % (reqs[k].name, k, n) for k, n in runs)
+
+
+def conc_family(name, mk_reqs, world=None, max_preemptions=None,
+                sig_schedule=False):
     """removal of an entity racing a request that starts using it: after
     every schedule nothing dangles and the hierarchy is a forest"""
     from engine import app
@@ -53,7 +75,9 @@ def conc_family(name, mk_reqs, world=None, max_preemptions=None):
                 runner.violation(ctx, 'no-5xx', '%s: %d' % (reqs[i].name,
                                                             r.status),
                                  sig=reqs[i].name)
-        asserts.no_dangling(ctx, None, None, pre, final, results[0])
+        asserts.no_dangling(ctx, None, None, pre, final, results[0],
+                            sig=schedule_sig(reqs, sched.trace)
+                            if sig_schedule else '')
         c18.forest_ok(ctx, final)
         return finish(ctx, ','.join(str(r.status) for r in results))
     return Family('conc/' + name, path, bounds=dict(
@@ -150,6 +174,10 @@ def _reqs():
         return Req('delete_trait', lambda ctx, w: app.call(
             'DELETE', '/traits/CUSTOM_T1', version='1.36'))
 
+    def put_trait():
+        return Req('put_trait', lambda ctx, w: app.call(
+            'PUT', '/traits/CUSTOM_T1', version='1.36'))
+
     def put_traits(p):
         return Req('put_traits', lambda ctx, w: app.call(
             'PUT', '/resource_providers/%s/traits' % U(p), {
@@ -181,10 +209,28 @@ def families(tier):
                              R['put_class'](),
                              R['put_inventories_custom'](2)],
                     world=conc_world_2classes, max_preemptions=1),
+        # the same for a trait: the association count and the removal must
+        # concern the same record
+        conc_family('delete_trait+[delete_trait;put_trait;put_traits]',
+                    lambda: [R['delete_trait'](), R['delete_trait'](),
+                             R['put_trait'](), R['put_traits'](2)],
+                    world=conc_world_2traits, max_preemptions=1,
+                    sig_schedule=True),
         # the replace-all write resolves the class inside its transaction
         # (unlike POST of one inventory, see the note below)
         conc_family('delete_class+put_inventories', lambda: [
             R['delete_class'](), R['put_inventories_custom'](2)]),
+        # the two races in which the unchanged tree does leave a dangling
+        # row (POST of one inventory / PUT traits resolve the name in an
+        # earlier transaction than the insert): known findings
+        # KF-C08-race-class and KF-C08-race-trait, identified by the
+        # schedule; any other schedule that leaves a dangling row is
+        # reported
+        conc_family('delete_class+post_inventory', lambda: [
+            R['delete_class'](), R['post_inventory_custom'](2)],
+            sig_schedule=True),
+        conc_family('delete_trait+put_traits', lambda: [
+            R['delete_trait'](), R['put_traits'](2)], sig_schedule=True),
     ]
     if tier == 'thorough':
         fams += [
@@ -198,13 +244,6 @@ def families(tier):
                 R['delete_class'](), R['reshape_custom'](2)]),
             conc_family('put_inventories_empty+put_alloc', lambda: [
                 R['put_inventories_empty'](1), R['put_alloc'](1)]),
-            # NOTE: delete_class || post_inventory and delete_trait ||
-            # put_traits were tried and do leave dangling rows on the
-            # unchanged tree (the class/trait is looked up in an earlier
-            # transaction than the insert).  C08 quantifies over request
-            # *sequences*, not schedules, so these races are outside the
-            # property: they are described in DESIGN 11.7 and are not part
-            # of this check.
         ]
     return fams
 
